@@ -405,6 +405,12 @@ impl NodeData {
         }
         h(self.id, salt + 700) % 4
     }
+    /// Items of lists with nullable composite items (`kids`, `kidsNnList`, `unis`) are now and then null
+    /// (static flavour only: a dynamic resolver has no way to hand back a null item of an object or
+    /// union type - `FieldValue::NULL` there means "an object whose parent value is null").
+    pub fn item_null(&self, salt: u32, idx: u32) -> bool {
+        matches!(salt, 13 | 16 | 23) && h(self.id, salt * 64 + idx + 900) % 5 == 0
+    }
     pub fn is_node(&self, salt: u32, idx: u32) -> bool {
         h(self.id, salt * 64 + idx + 500) % 2 == 0
     }
@@ -577,7 +583,7 @@ macro_rules! node_fields {
             async fn kids(&self, ctx: &Context<'_>) -> Result<Option<Vec<Option<Node>>>> {
                 let d = self.data();
                 run(ctx, $name, "kids", d).await?;
-                Ok(Some((0..d.len(13)).map(|i| Some(Node(d.child(13, i)))).collect()))
+                Ok(Some((0..d.len(13)).map(|i| if d.item_null(13, i) { None } else { Some(Node(d.child(13, i))) }).collect()))
             }
             async fn kids_req(&self, ctx: &Context<'_>) -> Result<Vec<Node>> {
                 let d = self.data();
@@ -592,7 +598,7 @@ macro_rules! node_fields {
             async fn kids_nn_list(&self, ctx: &Context<'_>) -> Result<Vec<Option<Node>>> {
                 let d = self.data();
                 run(ctx, $name, "kidsNnList", d).await?;
-                Ok((0..d.len(16)).map(|i| Some(Node(d.child(16, i)))).collect())
+                Ok((0..d.len(16)).map(|i| if d.item_null(16, i) { None } else { Some(Node(d.child(16, i))) }).collect())
             }
             async fn grid(&self, ctx: &Context<'_>) -> Result<Option<Vec<Option<Vec<Option<Node>>>>>> {
                 let d = self.data();
@@ -634,7 +640,7 @@ macro_rules! node_fields {
             async fn unis(&self, ctx: &Context<'_>) -> Result<Option<Vec<Option<Uni>>>> {
                 let d = self.data();
                 run(ctx, $name, "unis", d).await?;
-                Ok(Some((0..d.len(23)).map(|i| Some(mk_uni(d, 23, i))).collect()))
+                Ok(Some((0..d.len(23)).map(|i| if d.item_null(23, i) { None } else { Some(mk_uni(d, 23, i)) }).collect()))
             }
             async fn leaf(&self, ctx: &Context<'_>) -> Result<Option<Leaf>> {
                 let d = self.data();
